@@ -265,6 +265,11 @@ def _execute_concurrent(sc, tape, keep_events):
         S.Sched.__init__ = init
         try:
             sched, died = callersim.run_callers(sub_rng(sc["seed"], "sched"), log, fns, sc["strategy"], [ecmath.__file__, utils.__file__, keys.__file__], tape=tape)
+        except S.StepCapExceeded as e:
+            res.violations.append(Violation("nontermination", "concurrent callers", str(e)).to_json())
+            res.digest = log.digest()
+            res.nontrivial = True
+            return res
         finally:
             S.Sched.__init__ = orig_init
     viols = []
